@@ -41,6 +41,7 @@ type c13Plan struct {
 	RFraming string      `json:"rframing"` // cl | chunked | close
 	BufReq   bool        `json:"buf_req"`
 	BufResp  bool        `json:"buf_resp"`
+	Early    bool        `json:"early"` // the target sends an interim 103 Early Hints response first
 }
 
 var (
@@ -105,6 +106,7 @@ func c13Gen(t *rapid.T) c13Plan {
 	p.RFraming = rapid.SampledFrom([]string{"cl", "chunked", "close"}).Draw(t, "rframing")
 	p.BufReq = rapid.IntRange(0, 4).Draw(t, "buf-req") == 0
 	p.BufResp = rapid.IntRange(0, 4).Draw(t, "buf-resp") == 0
+	p.Early = rapid.IntRange(0, 4).Draw(t, "early") == 0
 	return p
 }
 
@@ -211,6 +213,9 @@ func c13Run(t *testing.T, p c13Plan) (res vfResult) {
 		default:
 			head.WriteString("Connection: close\r\n\r\n")
 			script = append(script, vfRawStep{Kind: "bytes", Data: head.String() + string(rbody)}, vfRawStep{Kind: "close"})
+		}
+		if p.Early {
+			script = append([]vfRawStep{{Kind: "bytes", Data: "HTTP/1.1 103 Early Hints\r\nLink: </style.css>; rel=preload\r\n\r\n"}, {Kind: "delay", DelayMs: 5}}, script...)
 		}
 		rt.setScripts([][]vfRawStep{script}, nil)
 
@@ -464,6 +469,9 @@ func c13Run(t *testing.T, p c13Plan) (res vfResult) {
 			res.label("chunked-request")
 		}
 		res.label("rframing:" + p.RFraming)
+		if p.Early {
+			res.label("interim-103-before-final")
+		}
 	})
 	return res
 }
